@@ -184,6 +184,11 @@ def arc_walk_check(orig, top):
 
 C_NAME_POOL = ["b1", "m_block_2", "z1", "loop_region_0"]
 C_TYPES = ["SyntheticHead", "SyntheticExitBranch", "SyntheticBranch"]
+C_FEEDERS = [
+    ["asg{v}", "asg{v}", "asg{v}"],
+    ["synth_asign_block_9", "synth_asign_block_10", "synth_asign_block_11"],
+    ["synth_asign_block_2", "synth_asign_block_10", "synth_asign_block_9"],
+]
 
 
 def build_c(desc):
@@ -195,13 +200,16 @@ def build_c(desc):
     var = "__scfg_control_var_0__"
     blocks = {}
     vals = sorted(table)
+    # names of the assignment blocks that feed X: plain, or generated-looking with indices of different digit counts
+    feeders = C_FEEDERS[desc.get("feeders", 0)]
+    asg = {v: feeders[j].format(v=v) for j, v in enumerate(vals)}
     # entry chain e0 -> (a0, e1), e1 -> (a1, a2) ...: one assignment block per value
     for j, v in enumerate(vals):
         last = j == len(vals) - 1
         if not last:
-            nxt = f"asg{vals[j + 1]}" if j == len(vals) - 2 else f"e{j + 1}"
-            blocks[f"e{j}"] = bb.BasicBlock(f"e{j}", (f"asg{v}", nxt))
-        blocks[f"asg{v}"] = bb.SyntheticAssignment(f"asg{v}", ("X",), (), {var: v})
+            nxt = asg[vals[j + 1]] if j == len(vals) - 2 else f"e{j + 1}"
+            blocks[f"e{j}"] = bb.BasicBlock(f"e{j}", (asg[v], nxt))
+        blocks[asg[v]] = bb.SyntheticAssignment(asg[v], ("X",), (), {var: v})
     blocks["X"] = getattr(bb, desc["type"])("X", tuple(T), (), var, dict(table))
     for t in T:
         blocks[t] = bb.BasicBlock(t, ())
@@ -215,8 +223,9 @@ def space_c(k):
     m_max = 3
     NM = [z3.Int(f"nm{i}") for i in range(k)]
     TB = [z3.Int(f"tb{v}") for v in range(m_max)]  # position of value v, -1 = value unused
-    ty, c = z3.Int("type"), z3.Int("counter")
-    cs = [ty >= 0, ty < len(C_TYPES), z3.Or(c == 0, c == 8, c == 9), z3.Distinct(*NM)]
+    ty, c, fd = z3.Int("type"), z3.Int("counter"), z3.Int("feeders")
+    # generated-looking feeder names only with a fresh generator (the constructor reserves them)
+    cs = [ty >= 0, ty < len(C_TYPES), z3.Or(c == 0, c == 8, c == 9), z3.Distinct(*NM), fd >= 0, fd < len(C_FEEDERS), z3.Implies(fd > 0, c == 0)]
     for x in NM:
         cs += [x >= 0, x < len(C_NAME_POOL)]
     for v in range(m_max):
@@ -225,7 +234,7 @@ def space_c(k):
             cs.append(z3.Implies(TB[v - 1] == -1, TB[v] == -1))
     for pos in range(k):
         cs.append(z3.Or([TB[v] == pos for v in range(m_max)]))
-    return z3.And(cs), [ty, c, NM[0], NM[1]], {"k": k, "NM": NM, "TB": TB, "ty": ty, "c": c}
+    return z3.And(cs), [ty, c, NM[0], NM[1]], {"k": k, "NM": NM, "TB": TB, "ty": ty, "c": c, "fd": fd}
 
 
 def realise_c(E, aux):
@@ -236,7 +245,8 @@ def realise_c(E, aux):
         p = E.realize(x)
         if p >= 0:
             tb[str(v)] = p
-    return {"space": "C", "targets": T, "table": tb, "type": C_TYPES[E.realize(aux["ty"])], "counter_start": E.realize(aux["c"])}
+    return {"space": "C", "targets": T, "table": tb, "type": C_TYPES[E.realize(aux["ty"])], "counter_start": E.realize(aux["c"]),
+            "feeders": E.realize(aux["fd"])}
 
 
 def c_ops(desc):
